@@ -141,7 +141,7 @@ def endCheck (es : List Exp) : Option String :=
   else if es.any (·.outOfOrder) then some msgOutOfOrder
   else none
 
-/-- the code as it is: calls number `k+1, k+2, …` made one after the other on the expectation
+/-- the code: calls number `k+1, k+2, …` made one after the other on the expectation
     list, then the end-of-test check.  `none` = the test passes, `some m` = it fails with `m` -/
 def run (es : List Exp) (k : Nat) : List Call → Option String
   | [] => endCheck es
@@ -149,23 +149,6 @@ def run (es : List Exp) (k : Nat) : List Call → Option String
     match (callFull es (k + 1) c.name c.segs bufInit).fail with
     | some m => some m
     | none => run (callFull es (k + 1) c.name c.segs bufInit).es (k + 1) rest
-
-/-- the same with the suggested repair: matching state that belongs to a finished call is
-    forgotten before the next call starts -/
-def runRepaired (es : List Exp) (k : Nat) : List Call → Option String
-  | [] => endCheck es
-  | c :: rest =>
-    match (callFull es (k + 1) c.name c.segs bufInit).fail with
-    | some m => some m
-    | none => runRepaired ((callFull es (k + 1) c.name c.segs bufInit).es.map Exp.norm) (k + 1) rest
-
-/-- no finished call leaves matching flags behind (decidable by running the model) -/
-def StaleFree (es : List Exp) (k : Nat) : List Call → Prop
-  | [] => True
-  | c :: rest =>
-    (callFull es (k + 1) c.name c.segs bufInit).fail = none →
-      Clean (callFull es (k + 1) c.name c.segs bufInit).es ∧
-      StaleFree (callFull es (k + 1) c.name c.segs bufInit).es (k + 1) rest
 
 /-- the abstract run: fold of `consume` -/
 def consumeAll (es : List Exp) (k : Nat) : List Call → Option (List Exp)
@@ -226,5 +209,15 @@ def specRun (es : List Exp) (k : Nat) : List Call → Option String
     match diagnose es c with
     | some m => some m
     | none => specRun (modifyFirst (wants c) (fun e => e.bump (k + 1)) es) (k + 1) rest
+
+/-- what `World.call` followed by finishing the call (as `returnValue()` or the next
+    `actualCall` does) computes on one scope -/
+def Scope.callNow (sc : Scope) (fn : String) (segs : List Seg) (buf : List UInt8) : Scope × Option String :=
+  match (sc.actualCall fn).fail with
+  | some f => ((sc.actualCall fn).sc, some f)
+  | none =>
+    match segsLoop (sc.actualCall fn).sc buf segs with
+    | (sc1, some f) => (sc1, some f)
+    | (sc1, none) => sc1.checkLast
 
 end Mock
